@@ -6,7 +6,7 @@ from .. import core, graphcheck, inputs
 
 def run(chk):
     quick = chk.tier == "quick"
-    items = inputs.corpus_items() + inputs.script_items(chk, 1500 if quick else 20000, chk.seed + 1)
+    items = inputs.corpus_items() + inputs.script_items(chk, 1500 if quick else 20000, chk.seed + 1) + inputs.col_items(chk, 500 if quick else 8000, chk.seed + 5)
     traces, meta, verdicts, cfg = graphcheck.run(chk, "C18", items)
     ok = [traces[i] for i, v in verdicts.items() if v[1] == "ok" and traces[i]["xc"]["edges"] and traces[i]["xt"]["edges"]]
     if ok:
